@@ -1,2 +1,60 @@
-From GB Require Import Bucket.
-Example C01_placeholder : True. Proof. exact I. Qed.
+(* C01 -- reads return the last value written (single-client model equivalence).
+   Property theorems only; proofs live in proofs/Refine.v. *)
+From Coq Require Import NArith ZArith List Bool String.
+From GB Require Import Consts Words Hash Compress Bucket CheckL2 RefMap Refine SpecFacts.
+Import ListNotations.
+Open Scope N_scope.
+
+(* For ALL configurations lc (data-file limit, hint split capacity, check_vhash, ...), ALL key sets K on
+   which the key hash does not collide, and ALL histories of set / delete / incr / get / meta-get /
+   forced flush / hint dump of any length over K (client flags without the server bit, revisions >= 0):
+   the replies of the bucket model -- the very function the correspondence check replays against the
+   implementation -- equal the replies of the plain reference map.  Rotation of data files happens
+   inside the model's append and is covered wherever the limit puts it. *)
+Theorem C01_refines : forall (lc : l2cfg) (K : list bytes) (ops : list l2op) (sops : list sop),
+  (forall k1 k2, In k1 K -> In k2 K ->
+     forced_hash (l_forced lc) k1 = forced_hash (l_forced lc) k2 -> k1 = k2) ->
+  sops_of ops = Some sops ->
+  ops_ok lc K [] sops ->
+  model_run lc bucket0 ops = spec_run (c_checkvhash (l_cfg lc)) [] sops.
+Proof.
+  intros lc K ops sops Hinj Hs Hok.
+  apply (run_refines lc K Hinj ops bucket0 [] sops); [apply rel_init|exact Hs|exact Hok].
+Qed.
+Print Assumptions C01_refines.
+
+(* the reference map really is "last write wins": with check_vhash off a get after an accepted set
+   returns exactly the bytes and flags just written, whatever the earlier history left in the map *)
+Theorem C01_spec_get_after_set : forall m k v flag,
+  snd (spec_step false (fst (spec_step false m (SSet k v flag 0))) (SGet k)) = PHit v flag.
+Proof. exact spec_get_after_set. Qed.
+Print Assumptions C01_spec_get_after_set.
+
+Theorem C01_spec_miss_after_delete : forall chk m k,
+  snd (spec_step chk (fst (spec_step chk m (SDel k))) (SGet k)) = PMiss.
+Proof. exact spec_miss_after_delete. Qed.
+Print Assumptions C01_spec_miss_after_delete.
+
+(* non-vacuity: a concrete history with rotation (64-byte... 1 KB files), flush, overwrite, delete, incr
+   meets every hypothesis of C01_refines for the REAL key hash *)
+Definition ex_lc : l2cfg := mkL2 (mkCfg 1024 4096 3 true 3 false 1) [] 0.
+Definition ex_K : list bytes := [unhex "6b31"; unhex "6b32"; unhex "6e"].
+Definition ex_ops : list l2op :=
+  [OSet "6b31" "6161" 0 0 1 (mkZ true 0 0); OSet "6b32" "62626262" 5 0 2 (mkZ true 0 0); OFlush;
+   OSet "6b31" "6363" 1 7 3 (mkZ true 0 0); OGet "6b31"; ODel "6b32"; OGet "6b32"; OMeta "6b32";
+   OIncr "6e" 41; OIncr "6e" 1; OGet "6e"; OHintDump; OSet "6b32" "6464" 0 0 4 (mkZ true 0 0); OGet "6b32"].
+
+Example C01_nonvacuous :
+  (forall k1 k2, In k1 ex_K -> In k2 ex_K -> forced_hash [] k1 = forced_hash [] k2 -> k1 = k2) /\
+  (exists sops, sops_of ex_ops = Some sops /\ ops_ok ex_lc ex_K [] sops) /\
+  model_run ex_lc bucket0 ex_ops =
+    [PStored; PStored; POk; PStored; PHit (unhex "6363") 1; PDeleted; PMiss; PMeta (-2) 0 0 0;
+     PNum 41; PNum 42; PHit (unhex "3432") 516; POk; PStored; PHit (unhex "6464") 0].
+Proof.
+  split; [|split].
+  - intros k1 k2 H1 H2 He. unfold ex_K in *. cbn [In] in H1, H2.
+    destruct H1 as [<-|[<-|[<-|[]]]]; destruct H2 as [<-|[<-|[<-|[]]]]; try reflexivity; exfalso; apply N.eqb_eq in He; vm_compute in He; discriminate He.
+  - eexists. split; [reflexivity|]. cbn -[N.land].
+    repeat match goal with |- _ /\ _ => split end; try exact I; try reflexivity; try (cbn; tauto); try (intro H; discriminate H).
+  - vm_compute. reflexivity.
+Qed.
